@@ -92,6 +92,16 @@ func (g *G) genC07(p *Plan) {
 		nclients = g.n(5, 16)
 	}
 	keys := [][]string{{"k1"}, {"k1", "k2"}, {"d/x", "d/y", "top"}, {"a/b/c", "a/e"}}[g.rng.Intn(4)]
+	// version churn: three or more clients create, delete by id and batch-delete
+	// by id the versions of one key (a key that keeps going from one version to
+	// none and back is where a stale pointer to its object shows)
+	churn := c.Versioned && g.chance(0.5)
+	if churn {
+		keys = []string{"k1"}
+		if nclients < 3 {
+			nclients = 3
+		}
+	}
 	key := func() string { return keys[g.rng.Intn(len(keys))] }
 	nup := 0
 	if c.Buckets != nil && g.chance(0.35) {
@@ -144,6 +154,9 @@ func (g *G) genC07(p *Plan) {
 			if faultyMPU && g.chance(0.4) {
 				r = 99
 			}
+			if churn {
+				r = []int{0, 0, 0, 70, 70, 70, 87, 87, 87, 40, 84}[g.rng.Intn(11)] // put, delete(-version), multi-delete, get, list(-versions)
+			}
 			switch {
 			case r < 32:
 				sz := 8 + g.rng.Intn(200)
@@ -178,7 +191,7 @@ func (g *G) genC07(p *Plan) {
 				op = Op{K: "head", B: b, Key: key()}
 			case r < 74:
 				op = Op{K: "del", B: b, Key: key()}
-				if c.Versioned && g.chance(0.5) {
+				if c.Versioned && (churn || g.chance(0.5)) {
 					op.Ver = g.n(1, 6) // delete-version of one of the key's issued ids
 				}
 			case r < 80:
@@ -190,12 +203,12 @@ func (g *G) genC07(p *Plan) {
 				}
 			case r < 89:
 				op = Op{K: "delmulti", B: b, Keys: allKeys[:g.n(1, len(allKeys))]}
-				if c.Versioned && g.chance(0.6) {
+				if c.Versioned && (churn || g.chance(0.6)) {
 					// a batch that names versions (a clean-up job): each entry
 					// removes exactly that version
 					op.Keys = append([]KeyRef{}, op.Keys...)
 					for i := range op.Keys {
-						if g.chance(0.7) {
+						if churn || g.chance(0.7) {
 							op.Keys[i].Ver = g.n(1, 6)
 						}
 					}
@@ -261,6 +274,20 @@ func (g *G) genC07(p *Plan) {
 				}
 			}
 		}
+	}
+	if churn && len(c.Buckets) == 1 && len(c.LinUploads) == 0 && g.chance(0.5) {
+		// the smallest such history: one version; a batch that names it, a
+		// delete of it and a fresh upload of the key, all three at once
+		k := KeyRef{Key: "k1", Ver: 1}
+		p.Clients = [][]Op{
+			{{K: "put", B: b, Key: "k1", Body: g.body(8 + g.rng.Intn(50))}, {K: "delmulti", B: b, Keys: []KeyRef{k}}, {K: "get", B: b, Key: "k1"}},
+			{{K: g.pick("head", "get", "lsversions"), B: b, Key: "k1", Keys: []KeyRef{{Key: "k1"}}}, {K: "del", B: b, Key: "k1", Ver: 1}},
+			{{K: g.pick("head", "get", "lsversions"), B: b, Key: "k1", Keys: []KeyRef{{Key: "k1"}}}, {K: "put", B: b, Key: "k1", Body: g.body(8 + g.rng.Intn(50))}, {K: "lsversions", B: b, Keys: []KeyRef{{Key: "k1"}}}},
+		}
+		// the window is the gap between two critical sections of one request:
+		// policies that switch at lock boundaries, or at few chosen points
+		c.Policy = []simrt.Policy{{Kind: "coarse", PIO: 0.2}, {Kind: "coarse", PIO: 0.5}, {Kind: "pct", Depth: 2, Len: 300}, {Kind: "pct", Depth: 3, Len: 300}, g.policy(3)}[g.rng.Intn(5)]
+		return
 	}
 	c.Policy = g.policy(nclients)
 }
